@@ -3,6 +3,7 @@ package exec
 import (
 	"fmt"
 	"math"
+	"sort"
 	"strings"
 
 	zerr "github.com/DemoHn/Zn/pkg/error"
@@ -483,7 +484,16 @@ func evalImportStmt(vm *r.VM, node *syntax.ImportStmt) error {
 	if extModule != nil {
 		// import all symbols to current module's importRefs
 		if len(node.ImportItems) == 0 {
-			for name, val := range extModule.GetAllExportValues() {
+			// declare in a fixed (alphabetical) order: which name an error reports
+			// must not depend on the iteration order of the export map
+			exportValues := extModule.GetAllExportValues()
+			exportNames := make([]string, 0, len(exportValues))
+			for name := range exportValues {
+				exportNames = append(exportNames, name)
+			}
+			sort.Strings(exportNames)
+			for _, name := range exportNames {
+				val := exportValues[name]
 				if err := vm.DeclareExternalElement(r.NewIDName(name), val, extModule); err != nil {
 					return err
 				}
